@@ -1,2 +1,4 @@
-//! harnesses mounted into the crate (see DESIGN.md 3.1)
+//! C20: builder validation. Child of `crate::cache::builder`.
 #![allow(dead_code, unused_imports)]
+use super::*;
+use crate::verif_nd::{self as nd, harness, vassert, vcover};
